@@ -3,7 +3,7 @@
 Model checking over explicit finite alphabets (vf/models/valueref.py is the oracle: every value carries its documented
 components as a plain tuple `key`, its timeline position `order` and its calendar `group`):
 
-  algebra        for each of the 17 public value types, an alphabet of 12-21 values (separately constructed equal values,
+  algebra        for each of the 17 public value types, an alphabet of 14-22 values - fixed zones: 66, every fixed zone of the tz database included - (separately constructed equal values,
                  neighbours, range ends, same-fields-other-calendar, same-instant-other-offset, Hebrew scriptural months,
                  negative years): ALL ordered pairs get the full operator battery, ALL triples the transitivity /
                  trichotomy / sorted / min / max laws, every value the foreign-type battery.
